@@ -543,3 +543,53 @@ pub fn gen_c13(out: &mut impl Write, seed: u64, thorough: bool) {
     }
     let _ = (PieWrappedKey::<TV4, Local>::from_str, Key::<TV4, Local>::random);
 }
+
+/// malformed inputs to every operation on parsed values (C04)
+pub fn gen_c04(out: &mut impl Write, seed: u64, thorough: bool) {
+    let mut r = Rng::new(seed ^ 0xC04);
+    for be in ALL_BE {
+        let key = r.bytes(32);
+        let sk = gen_secret(be);
+        let pk = public_of(be, &sk);
+        let (psk, _ppk) = pke_pair(be);
+        // tokens: every decoded payload length 0..700, contents random / zeros / ones
+        let step = if thorough { 1 } else { 3 };
+        for len in (0..=700usize).step_by(step).chain([31, 32, 33, 47, 48, 63, 64, 79, 80, 95, 96, 97, 255, 256, 257]) {
+            let content = match len % 3 { 0 => r.bytes(len), 1 => vec![0u8; len], _ => vec![0xff; len] };
+            let f = if len % 5 == 0 { r.bytes(3) } else { vec![] };
+            let mut tok = format!("v{}.local.{}", be.version(), b64(&content));
+            if !f.is_empty() { tok.push('.'); tok.push_str(&b64(&f)); }
+            writeln!(out, "loc.open {} {} {} - want=err", be.name(), hex(&key), hex(tok.as_bytes())).unwrap();
+            if len % 2 == 0 || thorough {
+                let ptok = tok.replacen("local", "public", 1);
+                writeln!(out, "pub.open {} {} {} - want=err", be.name(), hex(&pk), hex(ptok.as_bytes())).unwrap();
+            }
+        }
+        // wrapped / sealed keys: every blob length 0..300
+        for len in 0..=300usize {
+            let content = match len % 3 { 0 => r.bytes(len), 1 => vec![0u8; len], _ => vec![0xff; len] };
+            for k in kinds() {
+                let kn = if k == Kind::Local { "local" } else { "secret" };
+                writeln!(out, "pie.open {} {} {} {} want=err", be.name(), k.name(), hex(&key), hex(format!("k{}.{kn}-wrap.pie.{}", be.version(), b64(&content)).as_bytes())).unwrap();
+                // password-wrapped: random bytes around cost parameters inside the stated budget
+                let mut blob = content.clone();
+                let (a, b) = if be.version() % 2 == 1 { (32, 36) } else { (16, 32) };
+                if blob.len() >= b {
+                    let p = small_params(be, &mut r);
+                    blob[a..b].copy_from_slice(&p);
+                }
+                writeln!(out, "pw.open {} {} {} {} want=err", be.name(), k.name(), hex(b"pw"), hex(format!("k{}.{kn}-pw.{}", be.version(), b64(&blob)).as_bytes())).unwrap();
+            }
+            if be != Be::V1 || len % 4 == 0 {
+                writeln!(out, "seal.open {} {} {} want=err", be.name(), hex(&psk), hex(format!("k{}.seal.{}", be.version(), b64(&content)).as_bytes())).unwrap();
+            }
+        }
+        if be == Be::V1 {
+            for len in [591usize, 592, 593, 560, 80] {
+                writeln!(out, "seal.open v1 {} {} want=err", hex(&psk), hex(format!("k1.seal.{}", b64(&r.bytes(len))).as_bytes())).unwrap();
+                writeln!(out, "seal.open v1 {} {} want=err", hex(&psk), hex(format!("k1.seal.{}", b64(&vec![0u8; len])).as_bytes())).unwrap();
+                writeln!(out, "seal.open v1 {} {} want=err", hex(&psk), hex(format!("k1.seal.{}", b64(&vec![0xffu8; len])).as_bytes())).unwrap();
+            }
+        }
+    }
+}
